@@ -14,18 +14,24 @@ PROPERTY = "C11"
 TASK = "internet/task.py"
 QT = "twisted.internet.task.CooperativeTask"
 QC = "twisted.internet.task.Cooperator"
-TECHNIQUE = "CFG dominance + who-may-call/write + take-then-fire over CooperativeTask/Cooperator"
+TECHNIQUE = "CFG dominance/must-pass, who-may-call/write closed over inlined helpers, take-then-fire"
 EXPLANATION = (
-    "Decides the membership invariant 'task in Cooperator._tasks <=> not paused and not complete' clause by clause: pause/stop are "
-    "dominated by _checkFinish (which raises the stored completion state), _pauseCount 0<->1 transitions are coupled with "
-    "_removeTask/_addTask, _oneWorkUnit is only called by _tick on tasks drawn from _tasks, catches BaseException around next(), "
-    "pauses before registering resume/fail callbacks on a yielded Deferred; every _completeWith call site is once-guarded or runs on "
-    "a task known to be in _tasks (else a second completion: finding F11), completion state/result pairs follow the table and are "
-    "stored before the whenDone Deferreds fire, whenDone registers only while incomplete; loops that must visit every task do not "
-    "iterate the list the loop body mutates (Cooperator.stop: finding F11b); scheduling: _tick clears _delayedCall before "
-    "rescheduling, _addTask reschedules, the round-robin iterator is only renewed after exhaustion and at least one task is advanced "
-    "before the termination predicate is consulted. Not decided: the starvation bound itself, behaviour of user iterators/callbacks."
+    "Every clause is decided STRUCTURALLY on normalised copies of CooperativeTask / Cooperator (private helpers inlined, naming temporaries substituted; "
+    "named boolean tests resolved at their definition). "
+    "Never advanced unless runnable - who-may-call + CFG dominance: _oneWorkUnit is only called on elements drawn from the round-robin iterator over _tasks "
+    "(generator or inlined walk); membership in _tasks follows `not paused and not complete`: pause/stop dominated by _checkFinish (must-raise on the "
+    "finished branch, raises the stored state), _pauseCount 0<->1 transitions coupled with _removeTask/_addTask (guard dominance, either spelling), resume "
+    "skips finished tasks, a yielded Deferred pauses the task before callbacks are registered (must-precede) and those callbacks resume / fail it; next() is "
+    "covered by a BaseException handler (exception-escape), StopIteration first. "
+    "Completed once with the right result - take-then-fire / once-guard per _completeWith call site (finding F11 at the yielded Deferred's errback), "
+    "state/result table agreement, state stored and task removed before the waiters fire (must-precede), whenDone registers only while incomplete (late "
+    "registration guard), no loop iterates the live list its body mutates through the call graph (finding F11b in Cooperator.stop), coiterate chains. "
+    "No starvation - must-pass / who-may-write: iterator renewed only on exhaustion, a task advanced before the predicate is consulted, _tick clears "
+    "_delayedCall before rescheduling and always reschedules, _reschedule schedules one remembered tick when idle with work, _addTask wakes the scheduler, "
+    "cancelled ticks are forgotten and only cancelled when idle. "
+    "Not decided (no decider of any kind): the numeric starvation bound, behaviour of user iterators / callbacks."
 )
+RULE_KINDS = {"*": "structural"}
 ASSUMPTIONS = [
     "rules read a normalised copy of the class: a private non-generator method that is not an anchor, is only ever called as self._h(...) "
     "inside its class and is mentioned in no other module is inlined at its call sites; single-assignment naming temporaries are substituted "
